@@ -1,4 +1,4 @@
-"""PROTOTYPE C16: hardening codemods change only tokens of their documented vocabulary; other arguments survive in order."""
+"""C16: hardening codemods change only tokens of their documented vocabulary; other arguments survive in order."""
 import ast, base64, collections, hashlib, json, os, random, re, sys
 from vf import corpus, gen, oracles as O
 from vf.runner import run_check, Violation
@@ -40,10 +40,53 @@ def imported_names(src):
             for a in n.names: fr.add(a.asname or a.name); 
     return al, fr
 
-def shapes(src, rnd):
-    """call-shape mutations applied textually on the last call of the seed: extra kwargs / star args / nested"""
+SHAPES = {  # label -> text appended to the argument list of EVERY call of the seed (so the call the codemod rewrites has it too)
+    "extra-keyword": ["vf_extra=VF_EXTRA_VALUE"],
+    "star-args": ["*vf_star_args"],
+    "double-star": ["**vf_star_kw"],
+    "star-and-keyword-and-double-star": ["*vf_star_args", "vf_extra=VF_EXTRA_VALUE", "**vf_star_kw"],
+    "nested-call-argument": ["vf_nested=vf_inner_fn(vf_inner_arg, 7171)"],
+    "keyword-first": None,   # handled specially: a keyword argument is inserted in FRONT of the existing keywords
+}
+def shapes(src):
+    """call-shape variants of a seed: extra arguments appended to (or, for keyword-first, inserted into) every call"""
     out = [("orig", src)]
-    m = list(re.finditer(r"\)\s*$", src, flags=re.M))
+    try: tree = ast.parse(src)
+    except SyntaxError: return out
+    lines = src.splitlines(keepends=True)
+    starts = [0]
+    for l in lines: starts.append(starts[-1] + len(l))
+    def off(line, col):  # ast columns are UTF-8 byte offsets
+        return starts[line - 1] + len(lines[line - 1].encode("utf-8")[:col].decode("utf-8", "ignore"))
+    calls = [n for n in ast.walk(tree) if isinstance(n, ast.Call) and not (isinstance(n.func, ast.Name) and n.func.id.startswith("vf_"))]
+    if not calls: return out
+    for label, extra in SHAPES.items():
+        edits = []
+        for n in calls:
+            close = off(n.end_lineno, n.end_col_offset) - 1
+            if src[close] != ")": edits = None; break
+            if label == "keyword-first":
+                if not n.keywords or any(k.arg is None for k in n.keywords): continue
+                k0 = min(n.keywords, key=lambda k: (k.value.lineno, k.value.col_offset))
+                seg = ast.get_source_segment(src, k0.value)
+                pos = off(k0.value.lineno, k0.value.col_offset) - len(k0.arg) - 1
+                if src[pos:pos + len(k0.arg) + 1] != k0.arg + "=": continue
+                edits.append((pos, "vf_first_kw=VF_FIRST_VALUE, "))
+                continue
+            if any(k.arg is None for k in n.keywords) and any(e.startswith("*") and not e.startswith("**") for e in extra): continue   # nothing positional may follow **
+            j = close - 1
+            while j >= 0 and src[j] in " \t\r\n": j -= 1
+            text = ", ".join(extra)
+            if src[j] == "(": ins = text
+            elif src[j] == ",": ins = " " + text + ","
+            else: ins = ", " + text
+            edits.append((j + 1, ins))
+        if not edits: continue
+        new = src
+        for pos, ins in sorted(edits, reverse=True): new = new[:pos] + ins + new[pos:]
+        try: compile(new, "<shape>", "exec")
+        except SyntaxError: continue
+        out.append((label, new))
     return out
 
 def plan(tier, seed):
@@ -51,31 +94,38 @@ def plan(tier, seed):
     recs = [r for r in corpus.load() if r["codemod"].startswith("pixee:") and r["codemod"].split("/")[1] in VOCAB and r["input"] != r["expected"] and not r["files"]]
     by = collections.defaultdict(dict)
     ctxs = ("module", "def") if tier == "quick" else ("module", "def", "method", "nested")
+    nshape = collections.Counter()
     for r in recs:
+        nshape[r["codemod"]] += 1
+        with_shapes = tier != "quick" or nshape[r["codemod"]] <= 3
         for c in ctxs:
             try: s = gen.ctx(r["input"], c)
             except Exception: s = None
             if s is None: continue
             # extra untouched material that must survive: a marker call with unique identifiers and literals
-            s2 = s + ("\n" if not s.endswith("\n") else "") + "vf_marker_fn(vf_arg_one, 'vf literal', 4242, vf_kw=vf_arg_two)\n"
-            by[r["codemod"]].setdefault(hashlib.sha1(s2.encode()).hexdigest()[:12], (c, s2))
+            for shape, s1 in shapes(s):
+                if shape != "orig" and (not with_shapes or c != ("module" if tier == "quick" else c) or c not in ("module", "def")): continue
+                s2 = s1 + ("\n" if not s1.endswith("\n") else "") + "vf_marker_fn(vf_arg_one, 'vf literal', 4242, vf_kw=vf_arg_two)\n"
+                by[r["codemod"]].setdefault(hashlib.sha1(s2.encode()).hexdigest()[:12], (c + "/" + shape, s2))
     jobs = []
     for cid, d in sorted(by.items()):
         items = sorted(d.items())
         if corpus.is_semgrep_detected(cid):
             for i in range(0, len(items), 50):
                 ch = items[i:i + 50]
-                jobs.append({"id": f"{cid}#{i}", "cid": cid, "srcs": {f"v_{h}.py": s for h, (c, s) in ch}, "files": {f"v_{h}.py": b64(s.encode()) for h, (c, s) in ch}, "argv": ["{proj}", "--output", "{out}", "--codemod-include", cid], "monitors": {"snap": False}})
+                jobs.append({"id": f"{cid}#{i}", "cid": cid, "srcs": {f"v_{h}.py": s for h, (c, s) in ch}, "labels": {f"v_{h}.py": c for h, (c, s) in ch}, "files": {f"v_{h}.py": b64(s.encode()) for h, (c, s) in ch}, "argv": ["{proj}", "--output", "{out}", "--codemod-include", cid], "monitors": {"snap": False}})
         else:
             for h, (c, s) in items:
-                jobs.append({"id": f"{cid}#{h}", "cid": cid, "srcs": {"code.py": s}, "files": {"code.py": b64(s.encode())}, "argv": ["{proj}", "--output", "{out}", "--codemod-include", cid], "monitors": {"snap": False}})
+                jobs.append({"id": f"{cid}#{h}", "cid": cid, "srcs": {"code.py": s}, "labels": {"code.py": c}, "files": {"code.py": b64(s.encode())}, "argv": ["{proj}", "--output", "{out}", "--codemod-include", cid], "monitors": {"snap": False}})
     return jobs
 
 def call_args(src):
+    """per call: argument identities (keyword name or None, source text of the value), in source order"""
     out = []
     for n in ast.walk(ast.parse(src)):
         if isinstance(n, ast.Call):
-            out.append([ast.get_source_segment(src, a) for a in n.args] + [ast.get_source_segment(src, k.value) for k in n.keywords])
+            items = [((a.lineno, a.col_offset), (None, ast.get_source_segment(src, a))) for a in n.args] + [((k.value.lineno, k.value.col_offset), (k.arg, ast.get_source_segment(src, k.value))) for k in n.keywords]
+            out.append([x for _, x in sorted(items)])
     return out
 
 def judge(job, res):
@@ -100,13 +150,27 @@ def judge(job, res):
         bad_removed = {k: n for k, n in removed.items() if not allowed(*k)}
         bad_added = {k: n for k, n in added.items() if not allowed(*k)}
         w = {"codemod": job["cid"], "before": src, "after": after}
-        if bad_removed: v.append(Violation("C16", f"{cm}/lost-tokens", f"tokens outside the documented delta disappeared: {sorted(bad_removed)[:6]}", w))
-        if bad_added: v.append(Violation("C16", f"{cm}/extra-tokens", f"tokens outside the documented delta appeared: {sorted(bad_added)[:6]}", w))
+        shape = (job.get("labels", {}).get(name) or "?/orig").split("/", 1)[1]
+        if bad_removed: v.append(Violation("C16", f"{cm}/lost-tokens/{shape}", f"tokens outside the documented delta disappeared: {sorted(bad_removed)[:6]}", w))
+        if bad_added: v.append(Violation("C16", f"{cm}/extra-tokens/{shape}", f"tokens outside the documented delta appeared: {sorted(bad_added)[:6]}", w))
+        # argument order: argument texts that occur exactly once before and after must keep their relative order
+        try:
+            fb = [a for call in call_args(src) for a in call if a[1]]; fa = [a for call in call_args(after) for a in call if a[1]]
+            uniq = [a for a in fb if fb.count(a) == 1 and fa.count(a) == 1]
+            pos = [fa.index(a) for a in uniq]
+            # nested calls make an outer argument text contain inner ones; compare only within the same call of `before`
+            for call in call_args(src):
+                mine = [a for a in call if a in uniq]
+                idx = [fa.index(a) for a in mine]
+                if idx != sorted(idx): v.append(Violation("C16", f"{cm}/argument-order-changed/{shape}", f"arguments {mine} appear in another order after the rewrite", w)); break
+            st["order_checked"] += 1
+        except SyntaxError: pass
+        w["shape"] = job.get("labels", {}).get(name)
         if "vf_marker_fn(vf_arg_one, 'vf literal', 4242, vf_kw=vf_arg_two)" not in after: v.append(Violation("C16", f"{cm}/unrelated-call-changed", "marker call not preserved verbatim", w))
     return v, st, nt
 
 def main():
-    return run_check("C16", "exploration", plan, judge, "hardening codemods x seeds x contexts with an unrelated marker call; token multiset delta must lie inside the codemod's vocabulary; non-trivial = file rewritten", 40, deciding_counters=("pipe_libcst",), timeout=600, module=__name__)
+    return run_check("C16", "exploration", plan, judge, "hardening codemods x seeds x contexts x call shapes (extra keyword / *args / **kw / nested call / keyword-first added to every call) with an unrelated marker call; token multiset delta must lie inside the codemod's vocabulary; non-trivial = file rewritten", 40, deciding_counters=("pipe_libcst",), timeout=600, module=__name__)
 
 if __name__ == "__main__":
     sys.exit(main())
